@@ -138,7 +138,10 @@ fn udp_unbuffered(sc: &Value) -> Value {
     let server = UdpSocket::bind("127.0.0.1:0").unwrap();
     server.set_read_timeout(Some(Duration::from_millis(300))).unwrap();
     let addr = server.local_addr().unwrap();
-    let sink = UdpMetricSink::from(addr, UdpSocket::bind("127.0.0.1:0").unwrap()).unwrap();
+    // a second address after the first: the sink must use the FIRST resolved address
+    let decoy = UdpSocket::bind("127.0.0.1:0").unwrap();
+    let addrs = [addr, decoy.local_addr().unwrap()];
+    let sink = UdpMetricSink::from(&addrs[..], UdpSocket::bind("127.0.0.1:0").unwrap()).unwrap();
     let mut viol: Vec<Value> = vec![];
     let mut add = |prop: &str, clause: &str, detail: String| viol.push(json!({"prop": prop, "clause": clause, "detail": detail}));
     let (mut okp, mut okb) = (0u64, 0u64);
@@ -155,7 +158,7 @@ fn udp_unbuffered(sc: &Value) -> Value {
                 match server.recv(&mut b) {
                     Ok(k) if &b[..k] == m.as_bytes() => {}
                     Ok(k) => add("C13", "payload", format!("datagram {:?} differs from the metric {:?}", String::from_utf8_lossy(&b[..k]), m)),
-                    Err(e) => add("C13", "one-datagram-per-emit", format!("no datagram arrived: {}", e)),
+                    Err(e) => add("C13", "destination", format!("no datagram arrived at the first resolved address: {}", e)),
                 }
             }
             Err(e) => add("C13", "returns-socket-result", format!("loopback send failed: {}", e)),
